@@ -38,11 +38,13 @@ def solve(A, b, Delta):
     # Check for the hard case
     if minSig < eps and norm(bv/(sig+lam)) < Delta:
         p = -v@(bv/(sig+lam))
-        z = v[0]
+        z = v[:,0]
         pz = p@z
         pp = p@p
         ddmpp = Delta*Delta-pp
-        tau = ddmpp / (pz + np.sign(pz)*np.sqrt(pz*pz + ddmpp))
+        # sign(0) must count as +1: p is orthogonal to z in the exact hard case
+        pzSign = np.where(pz >= 0, 1.0, -1.0)
+        tau = ddmpp / (pz + pzSign*np.sqrt(pz*pz + ddmpp))
         return p + tau * z
 
     pNormSq = pnorm_squared(bvv, sig+lam)
